@@ -9,7 +9,7 @@ namespace Gts.Gen
 `Option.bind`)`: the two sides use different matcher constants, so `rfl` alone fails until the
 scrutinees are constructors -/
 macro "opt_split" : tactic =>
-  `(tactic| repeat' (first | rfl | (split <;> simp_all only [Option.bind_some, Option.bind_none])))
+  `(tactic| repeat' (first | rfl | (split <;> (try simp_all only [Option.bind_some, Option.bind_none, ↓reduceIte]))))
 
 variable {α : Type}
 
